@@ -69,7 +69,7 @@ class TimeEncoderMixIn(object):
 
             numbers = list(numbers)
 
-            searchIndex = min(numbers.index(self.DOT_CHAR) + 4, len(numbers) - 1)
+            searchIndex = len(numbers) - 1
 
             while numbers[searchIndex] != self.DOT_CHAR:
                 if numbers[searchIndex] == self.ZERO_CHAR:
